@@ -308,6 +308,47 @@ func scHiddenSilence(r *Run) {
 	n.Cfg.Latency = time.Millisecond
 	n.Step = true
 	multi := r.Intn("cfg", 3) == 0
+	if multi && r.Intn("cfg", 5) == 0 {
+		// hidden mode configured with names that match no host block: whatever arrives, nothing is sent
+		vs := startVHostServer(r, n, 2, true, false, true)
+		defer vs.srv.Close()
+		n.OnSend = func(d *Dgram) {
+			if d.Src.String() == vs.addr.String() {
+				r.Violate("C19/hidden-server-answered", "a server configured for hidden mode (hidden names that match no host block) sent a datagram (%d bytes, type %#x) to %s in response to %s", len(d.Data), firstByte(d.Data), d.Dst, describeCause(d))
+			}
+		}
+		kp, err := keys.GenerateKEMKeyPair(cryptorand.Reader)
+		must(err)
+		for i := 0; i < 3+r.Intn("cfg", 10); i++ {
+			from := drawAddr(r, "mis")
+			switch r.Intn("mis", 4) {
+			case 0:
+				b, err := transport.VerifAdvClientHello(kp)
+				must(err)
+				n.Inject(from, vs.addr, b, 0, "valid discoverable ClientHello")
+			case 1:
+				k := newX25519()
+				cfg := transport.ClientConfig{Exchanger: k, Leaf: SelfSigned(k.Public), HSTimeout: time.Second, Verify: transport.VerifyConfig{InsecureSkipVerify: true, Name: certs.DNSName("alpha.sim")}}
+				c := transport.NewClient(n.Listen("c-"+from.String(), from, vs.addr), vs.addr, cfg)
+				WithTimeout(r, 10*time.Second, func() { c.Handshake() })
+				c.Close()
+			case 2:
+				k := newX25519()
+				cfg := transport.ClientConfig{Exchanger: k, Leaf: SelfSigned(k.Public), HSTimeout: time.Second, ServerKEMKey: &vs.hosts[0].kem.Public,
+					Verify: transport.VerifyConfig{InsecureSkipVerify: true, Name: certs.DNSName("alpha.sim")}}
+				c := transport.NewClient(n.Listen("c-"+from.String(), from, vs.addr), vs.addr, cfg)
+				WithTimeout(r, 10*time.Second, func() { c.Handshake() })
+				c.Close()
+			default:
+				n.Inject(from, vs.addr, r.Bytes("mis", 1+r.Intn("mis", 1500)), 0, "junk")
+			}
+			r.Obligation(1)
+			time.Sleep(time.Duration(r.Intn("mis", 50)) * time.Millisecond)
+		}
+		r.CountFault("hidden-mode-with-names-that-match-no-host", 1)
+		time.Sleep(2 * time.Second)
+		return
+	}
 	var srvAddr *net.UDPAddr
 	var rightKEM *keys.KEMPublicKey
 	var mkClient func(addr *net.UDPAddr, kemPub *keys.KEMPublicKey, discoverable bool) *transport.Client
@@ -487,4 +528,18 @@ func scHiddenSilence(r *Run) {
 		c.Close()
 	}
 	r.Sample = append(r.Sample, fmt.Sprintf("acts=%d genuine=%d multi=%v", nActs, len(genuine), multi))
+}
+
+func firstByte(b []byte) byte {
+	if len(b) == 0 {
+		return 0
+	}
+	return b[0]
+}
+
+func describeCause(d *Dgram) string {
+	if d.Cause == nil {
+		return "nothing in particular"
+	}
+	return fmt.Sprintf("#%d from %s (%s, %d bytes)", d.Cause.ID, d.Cause.From, d.Cause.Tag+d.Cause.Mut, len(d.Cause.Data))
 }
